@@ -514,71 +514,12 @@ let run_dec_chunk (pd : string) (su : string) (sched : string) (hex : string) : 
       | _ -> show_res (fun _ -> "") r) results in
   String.concat " | " parts
 
-(* C06: disassemble a byte string into Insn.insn (canonical argument forms only; the result is
-   accepted only if Insn.asm_all gives the bytes back, so this parser needs no trust), then run the
-   CPython machine PyVM2.qload on it *)
-exception Dis
-let disasm (data : byte list) : insn list option =
-  let a = Array.of_list data in
-  let n = Array.length a in
-  let pos = ref 0 in
-  let byte () = if !pos >= n then raise Dis else (let b = a.(!pos) in incr pos; b) in
-  let take k = if !pos + k > n then raise Dis else
-      (let l = Array.to_list (Array.sub a !pos k) in pos := !pos + k; l) in
-  let line () =
-    let start = !pos in
-    let rec go () = if !pos >= n then raise Dis else if int_of_n (b2N a.(!pos)) = 10 then () else (incr pos; go ()) in
-    go ();
-    let l = Array.to_list (Array.sub a start (!pos - start)) in incr pos; l in
-  let le k = le_decode (take k) in
-  let counted k = let len = int_of_n (le k) in if len > n then raise Dis else take len in
-  let out = ref [] in
-  let stop = ref false in
-  (try
-     while not !stop do
-       let op = int_of_n (b2N (byte ())) in
-       let i = (match op with
-           | 0x4e -> INone | 0x88 -> INewTrue | 0x89 -> INewFalse
-           | 0x49 -> IInt (line ())
-           | 0x4b -> IBinint1 (le 1) | 0x4d -> IBinint2 (le 2) | 0x4a -> IBinint (le 4)
-           | 0x4c -> let l = line () in
-             (match List.rev l with
-              | c :: r when int_of_n (b2N c) = 0x4c -> ILong (List.rev r)
-              | _ -> raise Dis)
-           | 0x47 -> IBinfloat (be_decode (take 8))
-           | 0x46 -> IFloat (line ())
-           | 0x53 -> IString (line ())
-           | 0x55 -> IShortBinstring (counted 1) | 0x54 -> IBinstring (counted 4)
-           | 0x56 -> IUnicode (line ())
-           | 0x8c -> IShortBinunicode (counted 1) | 0x58 -> IBinunicode (counted 4)
-           | 0x43 -> IShortBinbytes (counted 1) | 0x42 -> IBinbytes (counted 4)
-           | 0x96 -> IBytearray8 (counted 8)
-           | 0x28 -> IMark | 0x74 -> ITuple | 0x85 -> ITuple1 | 0x86 -> ITuple2 | 0x87 -> ITuple3
-           | 0x29 -> IEmptyTuple | 0x5d -> IEmptyList | 0x6c -> IList | 0x7d -> IEmptyDict | 0x64 -> IDict
-           | 0x63 -> let m = line () in let nm = line () in IGlobal (m, nm)
-           | 0x93 -> IStackGlobal | 0x52 -> IReduce
-           | 0x50 -> IPersid (line ()) | 0x51 -> IBinpersid
-           | 0x80 -> IProto (le 1)
-           | 0x2e -> stop := true; IStop
-           | 0x70 -> IPut (line ()) | 0x71 -> IBinput (le 1) | 0x72 -> ILongBinput (le 4)
-           | 0x94 -> IMemoize
-           | 0x67 -> IGet (line ()) | 0x68 -> IBinget (le 1) | 0x6a -> ILongBinget (le 4)
-           | 0x32 -> IDup | 0x30 -> IPop | 0x61 -> IAppend | 0x65 -> IAppends
-           | 0x73 -> ISetitem | 0x75 -> ISetitems
-           | 0x8a -> ILong1 (counted 1)
-           | 0x95 -> IFrame (le 8)
-           | _ -> raise Dis) in
-       out := i :: !out
-     done;
-     let prog = List.rev !out in
-     let used = Array.to_list (Array.sub a 0 !pos) in
-     if asm_all prog = used then Some prog else None
-   with Dis -> None | Invalid_argument _ -> None)
-
+(* C06: disassemble with the extracted Dis.dis (which re-assembles and compares, so it needs no
+   trust), then run the CPython machine PyVM2.qload *)
 let run_qload (hex : string) : string =
-  match disasm (bytes_of_hex hex) with
+  match dis (bytes_of_hex hex) with
   | None -> "NODIS"
-  | Some prog ->
+  | Some (prog, _) ->
     (match qload prog with
      | None -> "GIVEUP"
      | Some (v, st) ->
